@@ -1038,7 +1038,8 @@ def snippet_scenarios(rng, count):
     catalogue = ["def-var", "def-fn", "def-class", "use-var", "use-fn", "use-class", "compile-error", "throw-top", "throw-nested", "throw-in-fiber",
                  "throw-in-finally", "builtin-error", "import", "import-failing", "reset", "try-finally-ok", "fiber-persist", "fiber-resume",
                  "uncaught-in-class-def", "closure-persist", "mutate-var", "throw-through-two-finally", "error-in-method",
-                 "inspect-failed-fiber", "fail-in-module-fn", "use-after"]
+                 "inspect-failed-fiber", "fail-in-module-fn", "use-after", "closure-escapes-failure", "closure-escapes-failure", "use-escaped-closure",
+                 "use-escaped-closure", "closure-escapes-fiber-failure"]
     triples = [(a, c) for a in catalogue for c in catalogue if a != "reset" and c != "reset"]
     for k in range(count):
         n = rng.randint(2, 6)
@@ -1048,6 +1049,8 @@ def snippet_scenarios(rng, count):
             plan = ["def-var", "def-fn", "import", "throw-in-fiber", a, "reset", c, "use-after"]
         elif k % 5 == 1:
             plan = ["throw-in-fiber"] + plan + ["inspect-failed-fiber"]
+        elif k % 5 == 3:
+            plan = [rng.choice(["closure-escapes-failure", "closure-escapes-fiber-failure"])] + plan + ["use-escaped-closure"]
         n = len(plan)
         snips = []
         mods = [{"path": "lib", "prog": None}, {"path": "broken", "prog": None}]
@@ -1111,6 +1114,23 @@ def snippet_scenarios(rng, count):
             elif kind == "use-after":
                 for nm in ("shared", "helper", "lib", "Kept", "Vec", "StopIter"):
                     b.try_(); b.print(b.v(nm)); b.catch("e"); b.print(tup(lit("undefined"), lit(nm))); b.end()
+            elif kind in ("closure-escapes-failure", "closure-escapes-fiber-failure"):
+                # closures over live locals are stored in globals, then the run dies with those locals still on the stack
+                b.var("esc_get", lit(None)); b.var("esc_set", lit(None))
+                b.fn("leaky", [])
+                b.var("pad", lit("pad")); b.var("x", tup(lit(7), vec(lit(8), lit(si))))
+                b.expr(b.assign("esc_get", b.lam([], lambda: b.v("x"))))
+                b.expr(b.assign("esc_set", b.lam(["nv"], lambda: b.assign("x", b.v("nv")))))
+                b.throw(lit("dies with x live %d" % si))
+                b.end()
+                if kind == "closure-escapes-failure":
+                    b.expr(call(b.v("leaky")))
+                else:
+                    b.expr(inv(inv(b.v("Fiber"), "new", b.v("leaky")), "call"))
+            elif kind == "use-escaped-closure":
+                b.var("filler", vec(vec(lit(1)), tup(lit(2), lit(3)), vec(lit(4))))
+                b.try_(); b.print(call(b.v("esc_get"))); b.expr(call(b.v("esc_set"), tup(lit("new"), vec(lit(si))))); b.print(call(b.v("esc_get")))
+                b.catch("e"); b.print(tup(lit("no escaped closure"), call(b.v("type"), b.v("e")))); b.end()
             elif kind == "error-in-method":
                 b.class_("Tmp", ctor="new"); b.method("boom", []); b.ret(bin_("-", lit("x"), lit(1))); b.end(); b.end(); b.print(inv(inv(b.v("Tmp"), "new"), "boom"))
             snips.append({"prog": b.toks})
